@@ -154,6 +154,9 @@ void h_do_blank_lines_iteration(void)
 #define AFTER_IGNORED (g_have_first && !Chunk_m_nullChunk(g_first_prevnc) && Chunk_m_type(g_first_prevnc) == CT_IGNORED_V)
    __CPROVER_assert(AFTER_IGNORED ? Chunk_m_nlCount(pc) == old_nl : Chunk_m_nlCount(pc) <= optv_nl_max, "postcondition: do_blank_lines nl_count <= nl_max (a newline right after disabled-region text is left alone)");
    __CPROVER_assert(Chunk_m_nlCount(pc) >= 1, "postcondition: do_blank_lines a newline chunk keeps at least one line break");
+   /* with every count option off nothing but the cap applies: a count within the cap is left exactly as it was (the extra line break
+    * the first / last newline of the file carries during the iteration is removed again) */
+   __CPROVER_assert((NL_COUNT_ALL_ZERO && optv_nl_max_after_func_body == 0 && g_cinl && !AFTER_IGNORED && old_nl + 1 <= optv_nl_max) ==> Chunk_m_nlCount(pc) == old_nl, "postcondition: do_blank_lines leaves a count within the cap unchanged when no count option is set");
    /* where can_increase_nl() says no (eat_blanks_* next to a brace, see its contract) the chunk is forced to exactly one line break */
    __CPROVER_assert(g_cinl || Chunk_m_nlCount(pc) == 1, "postcondition: do_blank_lines forces one line break where the count may not grow");
    if (Chunk_m_nlCount(pc) > optv_nl_max) { __CPROVER_assert(0, "VACUITY_CANARY do_blank_lines: untouched newline (after ignored text)"); }
